@@ -347,7 +347,14 @@ class Parser:
             self.statement = None
 
     def parse_statement(self) -> None:
-        _parse_result = self.yacc.parse(self.statement, lexer=self.lexer)
+        try:
+            _parse_result = self.yacc.parse(self.statement, lexer=self.lexer)
+        except SimpleDDLParserException:
+            # the lexer met a symbol it does not know: like a statement the grammar
+            # does not know, this is an error only when not silent
+            if not self.silent:
+                raise
+            return
         if _parse_result:
             self.tables.append(_parse_result)
 
